@@ -636,6 +636,11 @@ def key_of_rpc(rpc):
   return (rpc[1], rpc[2])
 
 
+# what a failing algorithm may raise: plain Python errors and Pythia's own error types (some of which invite retries)
+FAIL_CLASSES = [ValueError, RuntimeError, KeyError, AssertionError, pythia.TemporaryPythiaError, pythia.PythiaFallbackError,
+                pythia.LoadTooLargeError, pythia.InactivateStudyError, pythia.VizierDatabaseError, pythia.CancelComputeError]
+
+
 class Gen:
   """Generates mostly-legal RPC sequences while tracking a rough picture of what exists."""
 
@@ -727,7 +732,7 @@ class Gen:
         count = r.choice([1, 1, 2, 3])
         v = r.random()
         if v < self.p['fail']:
-          oracle = ('fail', r.choice([ValueError, RuntimeError, KeyError, AssertionError]))
+          oracle = ('fail', r.choice(FAIL_CLASSES))
         else:
           k = max(0, count + r.choice([0, 0, 0, 1, 2, -1, -2]))
           tmd = [(r.randrange(1, mx + 2), kv) for kv in gen_md(r, 1)] if r.random() < 0.25 else []
@@ -748,7 +753,7 @@ class Gen:
       elif u < 0.66:
         v = r.random()
         if v < self.p['fail'] * 1.5:
-          oracle = ('fail', r.choice([ValueError, RuntimeError]))
+          oracle = ('fail', r.choice(FAIL_CLASSES))
         else:
           ds = [(tid, r.random() < 0.5)] if r.random() < 0.8 else []
           if r.random() < 0.3:
